@@ -598,6 +598,7 @@ func init() {
 	// ------------------------------------------------------------ sync / atomic
 	lockEv := func(ev string) externalFn {
 		return func(fr *frame, args []value) value {
+			fr.r.waitFrom = fr.caller
 			fr.r.syncEvent(ev, args[0])
 			return nil
 		}
@@ -783,7 +784,26 @@ func (r *run) syncEvent(ev string, obj value) {
 		id = len(r.syncIDs) + 1
 		r.syncIDs[p] = id
 	}
-	r.syncLog = append(r.syncLog, syncEv{ev: ev, obj: id, ptr: p})
+	if ev == "CondWait" {
+		// a Wait returns only after a wake-up: when the same invocation waits
+		// on the same condition variable again with no Broadcast / Signal in
+		// between (a `for !flag { Wait() }` loop whose flag nobody set), it
+		// blocks for good: the path ends there (what it did so far stands)
+		for i := len(r.syncLog) - 1; i >= 0; i-- {
+			e := r.syncLog[i]
+			if e.ptr != p {
+				continue
+			}
+			if e.ev == "CondBroadcast" || e.ev == "CondSignal" {
+				break
+			}
+			if e.ev == "CondWait" && e.from != nil && e.from == r.waitFrom {
+				r.facts["blocked"] = fmt.Sprintf("waits again on condition variable #%d that nobody signals", id)
+				panic(pathEnd{"blocked in Cond.Wait"})
+			}
+		}
+	}
+	r.syncLog = append(r.syncLog, syncEv{ev: ev, obj: id, ptr: p, from: r.waitFrom})
 	if r.tracing {
 		switch ev {
 		case "Lock":
@@ -823,9 +843,10 @@ func (r *run) syncEvent(ev string, obj value) {
 }
 
 type syncEv struct {
-	ev  string
-	obj int
-	ptr *value
+	ev   string
+	obj  int
+	ptr  *value
+	from *frame // CondWait: the invocation that waits
 }
 
 func init() {
